@@ -68,6 +68,8 @@ def generate(rng, tier) -> dict:
         ops = []
         for _ in range(2):
             ops.append({"gulp": max(1, rng.choice([1, 2, 7, rng.randint(1, N), N, N + 3, max(1, N // 3), max(1, N // 4)]))})
+        if rng.random() < 0.1:
+            ops[rng.randrange(2)]["gulp"] = None  # gulp left at its default
         sc["ops"] = ops
         from .c06 import gen_pre
 
@@ -112,7 +114,8 @@ def fixup(sc):
         if (N * nch) // (sc["nbands"] * sc["nints"] * sc["nbins"]) < 10:
             return None
         for o in sc["ops"]:
-            o["gulp"] = max(1, o["gulp"])
+            if o["gulp"] is not None:
+                o["gulp"] = max(1, o["gulp"])
         for o in sc.get("pre", []):
             o["start"] = max(0, min(o["start"], N - 1))
             o["nsamps"] = max(1, min(o["nsamps"], N - o["start"]))
@@ -249,6 +252,11 @@ def execute(sc, ctx) -> None:
         def mk(clause, detail):
             return Violation(f"C11/TimeSeries.fold/{clause}", detail, info)
 
+        if sc.get("vseed", 0) % 3 == 0:  # the same series handed over as a non-contiguous view
+            wide = np.zeros(data.size * 2, dtype=data.dtype)
+            wide[::2] = data
+            data = wide[::2]
+            ctx.probe("tim-strided-input")
         K.fold = spy
         try:
             cube = TimeSeries(data, hdr).fold(period, sc["accel"], nbins=nbins, nints=nints)
@@ -282,6 +290,7 @@ def execute(sc, ctx) -> None:
         Xd = np.stack([fs.samples[delays[c] : delays[c] + nfold, c] for c in range(nchans)], axis=1)
         sums, cnts, pbin, _ = cell_model(Xd, N, nbins, nints, nbands, np.float32(reader.header.tsamp), p32, a32, ctx)
         cubes = []
+        held = None
         if sc.get("pre"):
             from .c06 import run_pre
 
@@ -289,8 +298,11 @@ def execute(sc, ctx) -> None:
             run_pre(reader, sc["pre"], ctx)
         for i, op in enumerate(sc["ops"]):
             gulp = op["gulp"]
-            g_eff = max(2 * md, gulp)
-            if g_eff != gulp:
+            if gulp is None:
+                ctx.probe("default-gulp")
+            gnum = 16384 if gulp is None else gulp
+            g_eff = max(2 * md, gnum)
+            if g_eff != gnum:
                 ctx.probe("gulp-raised-to-2maxdelay")
             nblk = blocks_of(N, min(g_eff, N), md)
             if nblk >= 3:
@@ -305,7 +317,8 @@ def execute(sc, ctx) -> None:
             raised = None
             K.fold = spy
             try:
-                cube = reader.fold(period, sc["dm"], accel=sc["accel"], nbins=nbins, nints=nints, nbands=sc["nbands"], gulp=gulp, quiet=True)
+                gkw = {} if gulp is None else {"gulp": gulp}
+                cube = reader.fold(period, sc["dm"], accel=sc["accel"], nbins=nbins, nints=nints, nbands=sc["nbands"], quiet=True, **gkw)
             except SimLivelock as e:
                 raise Violation("C11/Filterbank.fold/livelock", str(e), info) from None
             except Violation:
@@ -330,6 +343,12 @@ def execute(sc, ctx) -> None:
             compare_cube(cube.data, seen.get("count_ar"), sums, cnts, mk, ctx)
             if spec["mode"] == "pulse":
                 check_pulse(np.asarray(cube.data), cnts, mk)
+            if held is not None and np.nan_to_num(np.asarray(held[0])).tobytes() != held[1]:
+                raise mk("held-cube-changed-by-a-later-fold", "the cube returned by the first fold changed during the second")
+            if held is None:
+                held = (cube.data, np.nan_to_num(np.asarray(cube.data)).tobytes())
+            else:
+                ctx.probe("held-cube-rechecked")
             cubes.append(np.asarray(cube.data).copy())
             ctx.log("fold", i, gulp, nblk, zlib.crc32(np.nan_to_num(cubes[-1]).tobytes()))
         if len(cubes) == 2:
